@@ -358,6 +358,10 @@ pub fn advance_monitored(w: &MinerWorld, mon: &mut Monitors, to: ChainEpoch, den
     }
 }
 
+fn n_real0(w: &MinerWorld) -> usize {
+    w.miners.iter().filter(|m| !m.whale).count()
+}
+
 pub fn history(index: u64, mut rng: Rng, cfg: &HistCfg, focus: &str) -> Outcome {
     let mut o = Outcome::default();
     let kinds: Vec<bool> = match rng.below(3) {
@@ -375,6 +379,19 @@ pub fn history(index: u64, mut rng: Rng, cfg: &HistCfg, focus: &str) -> Outcome 
     if rng.chance(1, 2) {
         for m in w.miners.iter_mut().filter(|m| !m.whale) {
             m.auto_post = true;
+        }
+    }
+    if rng.chance(1, 2) {
+        for mi in 0..n_real0(&w) {
+            let m = w.miners[mi].clone();
+            let fav = (m.addr.id().unwrap() * 7 + 5) % 48;
+            for _ in 0..2 + rng.below(2) {
+                let k = 2 + rng.below(2);
+                let nums: Vec<u64> = (0..k).map(|i| w.miners[mi].next_sector + i).collect();
+                w.miners[mi].next_sector += k;
+                let exp = w.v.epoch() + 200 * DAY + rng.range(0, 50) * DAY;
+                let _ = prove_commit_ni(&w.v, &m, &m.worker, &nums, exp, fav);
+            }
         }
     }
     let mut mon = Monitors::new(&w);
